@@ -145,16 +145,38 @@ func (g *vfGen) genDets() {
 			seeds = append(seeds, b)
 		}
 		// corpus entries this detector accepts
+		var accepted [][]byte
 		d := vfDetectorByName(name)
 		if d != nil {
 			k := 0
 			for _, c := range corpus {
 				if len(c) <= 8192 && vfSafeDet(d, c, 0) == "T" {
 					seeds = append(seeds, c)
+					accepted = append(accepted, c)
 					k++
 					if k >= 3 {
 						break
 					}
+				}
+			}
+		}
+		for _, c := range directed[name] {
+			if d != nil && vfSafeDet(d, c, 0) == "T" {
+				accepted = append(accepted, c)
+			}
+		}
+		// numeric fields parsed with library routines accept more than digits (a sign, an underscore): each of the
+		// first bytes of an accepted sample replaced by such a byte (emitted as they are, nothing is derived from them)
+		for _, sd := range accepted {
+			if len(sd) < 8 || len(sd) > 8192 {
+				continue
+			}
+			for i := 0; i < 6; i++ {
+				for _, c := range []byte{'-', '+', '_'} {
+					v := append([]byte{}, sd...)
+					v[i] = c
+					g.emit(vfOp("det", name, v, 0))
+					g.emit(vfOp("det", name, v, len(v)))
 				}
 			}
 		}
@@ -304,6 +326,25 @@ func (g *vfGen) genC07() {
 		c[pos] = bad
 		for _, lim := range []int{0, len(c) + 1, pos + 1, pos, 8192, 3072} {
 			g.emit(vfOp("walk", c, lim))
+		}
+	}
+	// a byte-order mark decides by itself, whatever follows: bytes that are not valid UTF-8 (a Latin-1 letter, a lone
+	// continuation byte, a multi-byte character cut by the limit) together with binary-data bytes, in both orders
+	for _, bom := range [][]byte{{0xEF, 0xBB, 0xBF}, {0xFE, 0xFF}, {0xFF, 0xFE}} {
+		for _, bad := range [][]byte{{0xE9}, {0x80}, {0xFF}, {0xC3}, {0xE2, 0x82}, {0xF0, 0x9F, 0x98}} {
+			for _, bin := range []byte{0x00, 0x01, 0x08, 0x0E, 0x1F} {
+				a := append(append(append(append([]byte{}, bom...), []byte("caf")...), bad...), bin)
+				b := append(append(append(append([]byte{}, bom...), bin), []byte(" x ")...), bad...)
+				c := append(append(append(append([]byte{}, bom...), bin), []byte("h\xc3\xa9llo w\xc3\xb6rld \xe2\x82\xac")...), 'z')
+				for _, in := range [][]byte{a, b} {
+					g.emit(vfOp("walk", in, 0))
+					g.emit(vfOp("walk", in, len(in)))
+					g.emit(vfOp("walk", in, 3072))
+				}
+				for l := len(bom) + 2; l <= len(c); l++ { // every cut, the ones inside a character included
+					g.emit(vfOp("walk", c, l))
+				}
+			}
 		}
 	}
 	carriers := [][]byte{[]byte(""), []byte("a"), []byte("hello, world\n"), []byte("line one\r\nline two\r\n\ttabbed\x0c"), g.textBytes(40)}
